@@ -81,6 +81,60 @@ def hashseed_job(arg):
     return rep
 
 
+def other_process_job(arg):
+    """A long-lived process only analyses the pipeline (dry run); another process evaluates and stores everything; then the
+    first process evaluates: every kept node is in the store, nothing executes."""
+    import os
+
+    from vp import gen
+    from vp.worker import run_segment
+
+    p0, store, idx = arg
+    rep = core.Report("C02")
+    rep.evaluations = 1
+    f = p0["fns"][p0["entry"]]
+    ent = {"style": "eval", "module": gen.modname(p0, f["module"]), "func": f["name"], "args_src": "()"}
+    kept_names = set(p0["fns"][n["fn"]]["name"] for n in gen.kept_nodes(p0).values() if n["fn"])
+    case = {"other_process": True, "program": p0, "store": store, "idx": idx}
+    with core.Scratch("vp_c02o_") as td:
+        ra, rb, sdir = os.path.join(td, "a"), os.path.join(td, "b"), os.path.join(td, "store")
+        for d in (ra, rb, sdir):
+            os.makedirs(d)
+        side = {"mode": "impl", "root": rb, "accept": [p0["pkg"]] + gen.lazy_modules(p0), "store": {"kind": store, "dir": sdir},
+                "steps": [{"write": gen.render(p0), "how": "import", "modules": gen.import_order(p0), "entry": ent}]}
+        seg = {"mode": "impl", "root": ra, "accept": [p0["pkg"]] + gen.lazy_modules(p0), "store": {"kind": store, "dir": sdir},
+               "steps": [{"write": gen.render(p0), "how": "import", "modules": gen.import_order(p0), "entry": dict(ent, options={"dds_stages": ["analysis"]})},
+                         {"how": "none", "side": side, "entry": ent}, {"how": "none", "entry": ent}]}
+        a = core.fork_call(run_segment, seg, timeout=900)
+    if isinstance(a, core.JobFailed):
+        rep.inconclusive.append("other-process worker failed: %r" % (a,))
+        return rep
+    for x in a["steps"]:
+        if "setup_error" in x:
+            rep.inconclusive.append("setup error: %s" % x["setup_error"][-300:])
+            return rep
+    s1 = a["steps"][1]
+    if "side_error" in s1 or "side" not in s1 or s1["side"]["steps"][0].get("result", ("exc",))[0] != "ok":
+        rep.inconclusive.append("side process failed: %s" % (s1.get("side_error") or s1.get("side", {}).get("steps", [{}])[0].get("result"),))
+        return rep
+    if a["steps"][0]["log"]:
+        rep.inconclusive.append("the dry run executed user code")
+        return rep
+    for si in (1, 2):
+        st = a["steps"][si]
+        if st["result"][0] != "ok":
+            rep.inconclusive.append("evaluation %d failed: %r" % (si, st["result"][1:3]))
+            return rep
+        rep.count("memo_must_be_served", len(kept_names))
+        ran = sorted(set(x for x in st["log"] if x in kept_names))
+        if ran:
+            rep.violate("store %s: another process had evaluated and stored the whole pipeline, yet the long-lived process (which had only analysed it before) executed %r again in its evaluation %d" % (store, ran[:5], si),
+                        case, mechanism="recomputed-although-stored-by-other-process")
+            return rep
+    rep.nontriv(("c02other", gen.h(gen.render(p0)), store))
+    return rep
+
+
 LAMBDA_SRC = """import dds
 from vp import vlog
 %(above)s
@@ -158,7 +212,7 @@ def run(tier, seed):
     rep.rule = (
         "zero-edit histories (re-evaluation, fresh process, unrelated definitions added before/between/after in every module, reordering, edits of non-accepted code, relocation to another accepted "
         "package, switching between f() and dds.eval(f)) over 5 module layouts/import forms x plain and data-function entries; every single edit of the dependency matrix (see C01) with revert and restart; "
-        "random programs with random histories; restarts in brand-new interpreters with other PYTHONHASHSEED values (programs with module-level sets of strings); a lambda kept from a directly called function while text is added / removed above and below it. For every kept node at every step: cone fingerprint seen before => body absent from the execution log and signature unchanged. "
+        "random programs with random histories; restarts in brand-new interpreters with other PYTHONHASHSEED values (programs with module-level sets of strings); a process that only analysed the pipeline before another process stored all results; a lambda kept from a directly called function while text is added / removed above and below it. For every kept node at every step: cone fingerprint seen before => body absent from the execution log and signature unchanged. "
         "distinct_nontrivial = distinct cases in which at least one node was served from the store."
     )
     cases = build_cases(tier, seed)
@@ -174,6 +228,12 @@ def run(tier, seed):
     for j, r in zip(hjobs, core.fork_map(hashseed_job, hjobs, timeout=1200)):
         if isinstance(r, core.JobFailed):
             rep.inconclusive.append("hash-seed job: %r" % (r,))
+        else:
+            rep.merge(r)
+    ojobs = [(q, st, i) for i, q in enumerate(hp[:3]) for st in ("local", "local_lru", "local_api_cache_true", "local_api_cache_all")]
+    for j, r in zip(ojobs, core.fork_map(other_process_job, ojobs, timeout=1200)):
+        if isinstance(r, core.JobFailed):
+            rep.inconclusive.append("other-process job: %r" % (r,))
         else:
             rep.merge(r)
     ljobs = [(i, how, store) for i, (how, store) in enumerate([("same-process", "local"), ("new-process-per-step", "local"), ("same-process", "memory"), ("new-process-per-step", "local_lru")])]
@@ -193,6 +253,10 @@ def replay(payload):
     from vp import e1
 
     rep = core.Report("C02")
+    if payload["case"].get("other_process"):
+        c = payload["case"]
+        rep.merge(other_process_job((c["program"], c["store"], c["idx"])))
+        return rep
     if payload["case"].get("lambda"):
         c = payload["case"]
         rep.merge(lambda_job((c["idx"], c["how"], c["store"])))
